@@ -123,6 +123,7 @@ def check(ctx, tier):
     obs += ctx.attempt(lambda c, cl: memo.check(c, cl)[0], ctx, "D-g", default=[])
     o_opt, n_opt = ctx.attempt(plumb.all_options, ctx, "D-h", default=([], 0))
     obs += o_opt
+    obs += ctx.attempt(lambda c, cl: plumb.no_cross_option_flow(c, cl)[0], ctx, "D-h", default=[])
     exceptions.apply(obs)
     floors = [Floor("option control sites examined", nsites, 30), Floor("OR construction sites", len(sites), 1),
               Floor("classes examined for class-level state", n_glob, 60)]
